@@ -17,6 +17,22 @@ typedef SoPlex SP;
 typedef SP::RangeType RT;
 typedef SPxLPBase<double> RLP;
 typedef SPxLPBase<Rational> QLP;
+typedef SolBase<Rational> SOLQ;
+#ifdef VP_NATIVE
+// native build of the callee-contract obligations at the end of this file: callee models are explicit specialisations
+namespace soplex {
+template<> void SP::_performOptIRWrapper(SOLQ&, bool, bool, int, bool&, bool&, bool&, bool&, bool&, bool&, bool&);
+template<> void SP::_transformUnbounded();
+template<> void SP::_untransformUnbounded(SOLQ&, bool);
+template<> void SP::_transformFeasibility();
+template<> void SP::_untransformFeasibility(SOLQ&, bool);
+}
+#endif
+// scripts of the callee-contract obligations (end of file); g_contract switches the comparison models to them
+static int g_contract;
+static bool c_ge_posone, c_le_tol, c_ge_1;          // unboundedness test: tau >= _rationalPosone, tau <= _rationalFeastol, tau >= 1
+static bool c_lt_negtol, c_gt_onetol, c_lt_one;     // feasibility test: tau < -feastol, tau > 1 + feastol, tau < 1
+static int c_badq;
 
 #ifndef MAXD
 #define MAXD 3            // max rows / columns in the loop obligations
@@ -92,6 +108,7 @@ extern "C" {
 // a <= b : only "lower_k <= _rationalNegInfty"
 bool m_q_le(const Rational* a, const Rational* b)
 {
+   if(g_contract) { if(b != &g_sp->_rationalFeastol) c_badq++; return c_le_tol; }
    g_nq++;
    int k = pair_of_lower(cell_of(a));
    if(k < 0 || b != &g_sp->_rationalNegInfty) { g_badq++; return vp_nondet_bool(); }
@@ -100,6 +117,7 @@ bool m_q_le(const Rational* a, const Rational* b)
 // a >= b : only "upper_k >= _rationalPosInfty"
 bool m_q_ge(const Rational* a, const Rational* b)
 {
+   if(g_contract) { if(b != &g_sp->_rationalPosone) c_badq++; return c_ge_posone; }
    g_nq++;
    int k = pair_of_upper(cell_of(a));
    if(k < 0 || b != &g_sp->_rationalPosInfty) { g_badq++; return vp_nondet_bool(); }
@@ -355,5 +373,129 @@ extern "C" void h_recompute_real()
 #endif
    }
    vp_assert(g_badidx == 0 && g_remax == 0, 7);
+   vp_cover(1);
+}
+
+// =====================================================================================================================
+// C03-O2 (callee contracts): the two certificate tests _performUnboundedIRStable / _performFeasIRStable
+// (solverational.hpp 3370-3535). These are the contracts the verdict automaton C03-O2.optimizeRational.verdicts
+// (c03_refinement_ctl.cpp) ASSUMES of its callee models:
+//   stopped            => no ray / no Farkas proof, error == false
+//   auxiliary LP not solved to optimality (error, infeasible, unbounded, not primal/dual feasible) => no ray / no proof, error == true
+//   otherwise the answer is decided by comparing tau (last primal entry of the auxiliary solution) with 1 / the tolerance.
+// The real functions are encoded; _performOptIRWrapper is a model with arbitrary outcome, the transformations are recorded, the
+// Rational comparisons are the uninterpreted compare (scripted answers, restricted to answers an actual number can give).
+// Native build: real GMP comparisons on a real tau realising the script; callee models are explicit specialisations.
+struct OptOut { bool pf, df, inf, unb, st, si, err; };
+static OptOut c_opt;
+static int c_nopt, c_accept, c_ntrans, c_nuntrans, c_untransArg, c_order;
+static void c_optIR(bool au, bool ai, bool& pf, bool& df, bool& inf, bool& unb, bool& st, bool& si, bool& err)
+{
+   c_nopt++;
+   if(au || ai) c_accept++;
+   if(c_ntrans != 1 || c_nuntrans != 0) c_order++;
+   c_opt.pf = vp_nondet_bool(); c_opt.df = vp_nondet_bool(); c_opt.inf = vp_nondet_bool(); c_opt.unb = vp_nondet_bool();
+   c_opt.st = vp_nondet_bool(); c_opt.si = vp_nondet_bool(); c_opt.err = vp_nondet_bool();
+   pf = c_opt.pf; df = c_opt.df; inf = c_opt.inf; unb = c_opt.unb; st = c_opt.st; si = c_opt.si; err = c_opt.err;
+}
+static void c_trans() { c_ntrans++; if(c_nopt != 0 || c_nuntrans != 0) c_order++; }
+static void c_untrans(bool flag) { c_nuntrans++; c_untransArg = flag; if(c_nopt != 1 || c_ntrans != 1) c_order++; }
+#ifndef VP_NATIVE
+union SolMem { SOLQ s; SolMem() {} ~SolMem() {} };
+static SolMem c_sol;
+union StatMem { SP::Statistics s; StatMem() {} ~StatMem() {} };
+static StatMem c_stat;
+extern "C" {
+void m_optIRWrapper(SP* self, SOLQ* sol, bool au, bool ai, int minRounds, bool* pf, bool* df, bool* inf, bool* unb, bool* st, bool* si, bool* err)
+{ c_optIR(au, ai, *pf, *df, *inf, *unb, *st, *si, *err); }
+void m_transformUnbounded(SP* self) { c_trans(); }
+void m_untransformUnbounded(SP* self, SOLQ* sol, bool unbounded) { c_untrans(unbounded); }
+void m_transformFeasibility(SP* self) { c_trans(); }
+void m_untransformFeasibility(SP* self, SOLQ* sol, bool infeasible) { c_untrans(infeasible); }
+bool m_q_ge_int(const Rational* a, const int* b) { if(*b != 1) c_badq++; return c_ge_1; }
+bool m_q_lt(const Rational* a, const Rational* b) { return b == &g_sp->_rationalPosone ? c_lt_one : c_lt_negtol; }
+bool m_q_gt(const Rational* a, const Rational* b) { return c_gt_onetol; }
+}
+#else
+namespace soplex {
+template<> void SP::_performOptIRWrapper(SOLQ& sol, bool au, bool ai, int minRounds, bool& pf, bool& df, bool& inf, bool& unb, bool& st, bool& si, bool& err)
+{ c_optIR(au, ai, pf, df, inf, unb, st, si, err); }
+template<> void SP::_transformUnbounded() { c_trans(); }
+template<> void SP::_untransformUnbounded(SOLQ& sol, bool unbounded) { c_untrans(unbounded); }
+template<> void SP::_transformFeasibility() { c_trans(); }
+template<> void SP::_untransformFeasibility(SOLQ& sol, bool infeasible) { c_untrans(infeasible); }
+}
+#endif
+static SP* contract_solver()
+{
+   SP* sp = make_solver(0.0, false);
+#ifdef VP_NATIVE
+   sp->setIntParam(SP::SYNCMODE, SP::SYNCMODE_MANUAL);
+   sp->addColRational(LPColRational(Rational(0), DSVectorRational(), Rational(1), Rational(0)));
+#else
+   sp->_statistics = &c_stat.s;
+   sp->_rationalLP = &qlpmem.lp;
+   g_nc = 1;
+#endif
+   g_contract = 1;
+   return sp;
+}
+extern "C" void h_unbounded_ir_contract()
+{
+   c_ge_posone = vp_nondet_bool(); c_le_tol = vp_nondet_bool(); c_ge_1 = vp_nondet_bool();
+   // answers an actual number can give (_rationalPosone is 1, the tolerance is below 1)
+   vp_assume(c_ge_1 == c_ge_posone && !(c_ge_posone && c_le_tol));
+   bool ray = vp_nondet_bool(); bool st = vp_nondet_bool(); bool si = vp_nondet_bool(); bool err = vp_nondet_bool();   // previous values
+   SP* sp = contract_solver();
+#ifdef VP_NATIVE
+   SOLQ sol; sol._primal.reDim(1);
+   sol._primal[0] = c_ge_1 ? Rational(1) : (c_le_tol ? Rational(0) : Rational(1) / 2);
+   sp->_performUnboundedIRStable(sol, ray, st, si, err);
+#else
+   sp->_performUnboundedIRStable(c_sol.s, ray, st, si, err);
+#endif
+   vp_assert(c_nopt == 1, 40);                                          // exactly one auxiliary solve
+   vp_assert(c_accept == 0, 41);                                        // ... which must not accept "unbounded"/"infeasible" answers
+   vp_assert(st == c_opt.st && si == c_opt.si, 42);
+   bool solved = !c_opt.err && !c_opt.unb && !c_opt.inf && c_opt.pf && c_opt.df;
+   if(c_opt.st || c_opt.si) vp_assert(!ray && !err, 43);
+   else if(!solved) vp_assert(!ray && err, 44);
+   else
+   {
+      vp_assert(err == !(c_ge_posone || c_le_tol), 45);
+      vp_assert(ray == c_ge_1, 46);
+   }
+   if(err) vp_assert(!ray, 47);                                         // the contract the automaton relies on
+   vp_assert(c_ntrans == 1 && c_nuntrans == 1 && c_order == 0 && (c_untransArg != 0) == ray, 48);
+   vp_assert(c_badq == 0, 49);
+   vp_cover(1);
+}
+extern "C" void h_feas_ir_contract()
+{
+   c_lt_negtol = vp_nondet_bool(); c_gt_onetol = vp_nondet_bool(); c_lt_one = vp_nondet_bool();
+   // answers an actual number can give
+   vp_assume(!(c_lt_negtol && c_gt_onetol) && (!c_lt_negtol || c_lt_one) && (!c_gt_onetol || !c_lt_one));
+   bool farkas = vp_nondet_bool(); bool st = vp_nondet_bool(); bool si = vp_nondet_bool(); bool err = vp_nondet_bool();
+   SP* sp = contract_solver();
+#ifdef VP_NATIVE
+   SOLQ sol; sol._primal.reDim(1);
+   sol._primal[0] = c_lt_negtol ? Rational(-1) : (c_gt_onetol ? Rational(2) : (c_lt_one ? Rational(0) : Rational(1)));
+   sp->_performFeasIRStable(sol, farkas, st, si, err);
+#else
+   sp->_performFeasIRStable(c_sol.s, farkas, st, si, err);
+#endif
+   vp_assert(c_nopt == 1, 40);
+   vp_assert(c_accept == 0, 41);
+   vp_assert(st == c_opt.st && si == c_opt.si, 42);
+   bool solved = !c_opt.err && !c_opt.unb && !c_opt.inf && c_opt.pf && c_opt.df;
+   if(c_opt.st || c_opt.si) vp_assert(!farkas && !err, 43);
+   else if(!solved) vp_assert(!farkas && err, 44);
+   else
+   {
+      vp_assert(err == (c_lt_negtol || c_gt_onetol), 45);
+      vp_assert(farkas == c_lt_one, 46);
+      vp_assert(sp->_solRational._hasDualFarkas || !farkas, 50);
+   }
+   vp_assert(c_ntrans == 1 && c_nuntrans == 1 && c_order == 0 && (c_untransArg != 0) == farkas, 48);
    vp_cover(1);
 }
